@@ -1558,9 +1558,18 @@ fn scope_dfs(
 }
 
 pub fn small_scope_sub(id: &'static str, replay: RunFn) -> Sub {
-    let n = small_alphabet().len();
+    // the property's own operations join the alphabet where the common one lacks them
+    let alphabet = move || {
+        let mut a = small_alphabet();
+        if id == "C19" {
+            a.push(vec![Op::Title("t;\\".into())]);
+            a.push(vec![Op::Icon("\u{e9}".into())]);
+        }
+        a
+    };
+    let n = alphabet().len();
     exh_sub("exh-small-scope", (n, n), replay, move |i, tier, acc| {
-        let alpha = small_alphabet();
+        let alpha = alphabet();
         let depth = if tier == Tier::Thorough { 6 } else { 5 };
         let mut cfg = if id == "C01" {
             let mut c = Cfg::stepper("C01");
